@@ -374,7 +374,7 @@ def impl(case):
     old = signal.signal(signal.SIGVTALRM, _alarm)
     try:
         try:
-            signal.setitimer(signal.ITIMER_VIRTUAL, 0.15 if _HANG_SEEN[0] else 1.0)
+            signal.setitimer(signal.ITIMER_VIRTUAL, 0.05 if _HANG_SEEN[0] else 1.0)
             a_obj, a_init = _build(case, True)
             signal.setitimer(signal.ITIMER_VIRTUAL, 0)
         except _Hang:
